@@ -323,7 +323,7 @@ def single_defs(P, func):
                 if is_clock_call(c):
                     ok = False          # a clock read is not the same value at a later use
                     break
-                if isinstance(c.func, ast.Name) and c.func.id in _PURE_FUNCS:
+                if isinstance(c.func, ast.Name) and (c.func.id in _PURE_FUNCS or c.func.id in ('reversed', 'sorted', 'list', 'tuple', 'set', 'frozenset', 'enumerate', 'zip', 'range', 'xrange', 'str', 'dict')):
                     continue
                 r = P.resolve_call(func, c)
                 if r.kind == 'method' and r.targets and all(P.is_pure_getter(t) for t in r.targets):
@@ -376,3 +376,47 @@ def deref1(P, func, expr):
         if d is not None:
             return d
     return expr
+
+
+def single_assign_value(func, name):
+    """the right-hand side if local `name` is bound by exactly one plain assignment in `func` (no purity requirement:
+    for a flag such as `timedOut = now() > deadline` that is branched on right away), else None"""
+    vals = []
+    n_store = 0
+    for n in walk_no_nested(func.node):
+        if isinstance(n, ast.Name) and n.id == name and isinstance(n.ctx, (ast.Store, ast.Del)):
+            n_store += 1
+        if isinstance(n, ast.Assign) and len(n.targets) == 1 and isinstance(n.targets[0], ast.Name) and n.targets[0].id == name:
+            vals.append(n.value)
+    if n_store == 1 and len(vals) == 1 and name not in func.params:
+        return vals[0]
+    return None
+
+
+def loop_sources(func):
+    """local name -> [expressions it ranges over], for the targets of `for` loops, looking through enumerate / zip /
+    reversed / sorted / list / iter and tuple targets: `for i, (a, b) in enumerate(zip(X, Y))` gives a -> X, b -> Y"""
+    out = {}
+
+    def bind(target, src):
+        if isinstance(src, ast.Call) and isinstance(src.func, ast.Name):
+            fn = src.func.id
+            if fn in ('range', 'xrange'):
+                return          # an index, not an element of a collection
+            if fn in ('reversed', 'sorted', 'list', 'iter', 'tuple') and src.args:
+                return bind(target, src.args[0])
+            if fn == 'enumerate' and src.args and isinstance(target, (ast.Tuple, ast.List)) and len(target.elts) == 2:
+                return bind(target.elts[1], src.args[0])
+            if fn in ('zip', 'izip') and isinstance(target, (ast.Tuple, ast.List)) and len(target.elts) == len(src.args):
+                for t_, a_ in zip(target.elts, src.args):
+                    bind(t_, a_)
+                return
+        if isinstance(target, ast.Name):
+            out.setdefault(target.id, []).append(src)
+        elif isinstance(target, (ast.Tuple, ast.List)):
+            for t_ in target.elts:
+                bind(t_, src)
+    for n in walk_no_nested(func.node):
+        if isinstance(n, ast.For):
+            bind(n.target, n.iter)
+    return out
